@@ -98,3 +98,20 @@ func Reset() {
 	probes = map[any]func() bool{}
 	probesLk.Unlock()
 }
+
+// ProbesBusyCount reports how many registered components have queued work.
+func ProbesBusyCount() int {
+	probesLk.Lock()
+	fs := make([]func() bool, 0, len(probes))
+	for _, f := range probes {
+		fs = append(fs, f)
+	}
+	probesLk.Unlock()
+	n := 0
+	for _, f := range fs {
+		if f() {
+			n++
+		}
+	}
+	return n
+}
